@@ -316,8 +316,34 @@ def rule_guard_truth_tables(ctx, rep: Report, rid="K10"):
     su = u.get("std::string") or u.get("string") or next((f for t, f in u.items() if "basic_string" in t or t.endswith("string")), None)
     if su is not None:
         n += 1
-        _guard_obligation(rep, rid, su, "unwrap<string>:raises exactly when the array is not a character array (mxArrayToString gave NULL)",
-                          {("nonnull", "mxArrayToString"): True}, "mxArrayToString returns NULL for anything that is not a character array")
+        if calls(su, "mxArrayToString"):
+            _guard_obligation(rep, rid, su, "unwrap<string>:raises exactly when the array is not a character array (mxArrayToString gave NULL)",
+                              {("nonnull", "mxArrayToString"): True}, "mxArrayToString returns NULL for anything that is not a character array")
+        else:
+            _guard_obligation(rep, rid, su, "unwrap<string>:raises exactly when the array is not a character array",
+                              {("mxIsChar",): True}, "only a character array holds a string")
+            # read with mxGetString: the buffer (and the result) hold every character of the array - rows times columns - plus the NUL
+            gs = calls(su, "mxGetString")
+            dims = set()
+            inits = _var_inits(su)
+            for c in gs:
+                a = call_args(c)
+                if len(a) >= 3:
+                    todo, seen_ = [a[2]], set()
+                    while todo:
+                        x = todo.pop()
+                        for y in walk(x):
+                            nm = callee(y)
+                            if nm in ("mxGetN", "mxGetM", "mxGetNumberOfElements"):
+                                dims.add(nm)
+                            r = ref_name(y) if y.get("kind") == "DeclRefExpr" else None
+                            if r and r in inits and r not in seen_:
+                                seen_.add(r)
+                                todo.append(inits[r])
+            whole = "mxGetNumberOfElements" in dims or {"mxGetM", "mxGetN"} <= dims
+            rep.add(rid, "unwrap<string>:the buffer read by mxGetString holds every character of the array", bool(gs) and whole,
+                    f"the length handed to mxGetString is computed from {sorted(dims) or 'nothing this rule recognises'}: a character array with more than one row "
+                    f"(a column vector of characters, a char matrix) is cut to its first characters and mxGetString's failure is not noticed", hloc(su))
     co_ = h.functions_inlined("create_object")
     written = [_enum_name(call_args(c)[2]) for c in calls(co_[0], "mxCreateNumericMatrix")] if co_ else []
     ptr_class = written[1] if len(written) > 1 else "?"     # what mxUINT32OR64_CLASS expands to in this configuration
